@@ -79,6 +79,7 @@ def parseStmt (t : String) : Option Stmt :=
       pure (.ts [sig] n rest false)
   | ["ti"] => some .ti
   | ["gj", k] => k.toNat?.map .gj
+  | ["gl"] => some .gl
   | ["wx"] => some .wx
   | ["sc", n] => n.toNat?.map .sc
   | ["scp", n] => n.toNat?.map .scp
